@@ -52,6 +52,11 @@ fn run_one(v: &Value, out: &mut Vec<String>) {
         drop(cfg);
         cfg = c;
     }
+    // "sigchld_ign": the application ignores SIGCHLD (the kernel reaps its children itself: nobody ever sees a status)
+    let sigchld_ign = v["sigchld_ign"].as_bool().unwrap_or(false);
+    if sigchld_ign {
+        unsafe { libc::signal(libc::SIGCHLD, libc::SIG_IGN) };
+    }
     let p = Popen::create(&["true"], cfg).expect("spawn true");
     let real_pid = p.pid().unwrap() as i32;
     let epoch = unsafe { EPOCH };
@@ -126,6 +131,9 @@ fn run_one(v: &Value, out: &mut Vec<String>) {
     } else {
         // (the abandoned thread still stands inside the old simulator: leave that one alone, the next run gets a new one)
         unsafe { std::mem::forget(psim::PSIM.take()) };
+    }
+    if sigchld_ign {
+        unsafe { libc::signal(libc::SIGCHLD, libc::SIG_DFL) };
     }
     // dispose of the real child with raw system calls
     unsafe {
